@@ -500,4 +500,15 @@ theorem affinityR_ok_prepared (rnd : Rat → Rat) (G : Geos σ) (g1 g2 : Geom) (
 def extentR (rnd : Rat → Rat) (G : Geos σ) (p : Prep σ) : Rat :=
   if isTime p then rnd ((timeBounds G p).2 - (timeBounds G p).1) else G.area (toShape G p)
 
+/-- the time extent of a geometry that `_prepare_geometry` leaves alone or buffers in closed form -/
+def closedExtent (g : Geom) (tb : Rat) : Option (Rat × Rat) :=
+  match g with
+  | .timeStamp t => some (max (t - tb) 0, t + tb)
+  | .timeInterval s e => some (s, e)
+  | .boundingBox s _ e _ => some (s, e)
+  | .polygon r => (Geom.polygon r).bounds.map (fun b => (b.st, b.en))
+  | .multiPolygon r => (Geom.multiPolygon r).bounds.map (fun b => (b.st, b.en))
+  | _ => none
+
+
 end SE.Affinity
